@@ -19,6 +19,7 @@ func init() {
 				clFrameGrammar(c)
 				clChecksumOperands(c)
 				clReaderVersionAndSingleStream(c)
+				clAssembleTable(c)
 			})
 			c.Do("C05.e", "L2 restored count source and verification", 8, func() { clRestoredCount(c); clVerificationPrecedesAcceptance(c); clRestoreItemSize(c) })
 		},
